@@ -252,7 +252,19 @@ func checkC02(p *load.Program, r *kit.Report) {
 	checkDepIndex(p, r, ph, g)
 }
 
-func bigArg(v ssa.Value) ssa.Value { return kit.Strip(v) }
+// bigArg identifies a *big.Int operand: the value itself, or — for the result of a chained
+// big.Int method (`new(big.Int).Add(a, b)` returns its receiver) — the receiver.
+func bigArg(v ssa.Value) ssa.Value {
+	v = kit.Strip(v)
+	for i := 0; i < 4; i++ {
+		c, ok := v.(*ssa.Call)
+		if !ok || !strings.HasPrefix(kit.CallID(c), bigInt+".") || !bigMutating[strings.TrimPrefix(kit.CallID(c), bigInt+".")] || len(c.Call.Args) == 0 {
+			return v
+		}
+		v = kit.Strip(c.Call.Args[0])
+	}
+	return v
+}
 
 func checkTarget(p *load.Program, r *kit.Report) {
 	f := fn(p, r, "CONST-TABLE", H, "Branch.Target")
